@@ -362,6 +362,45 @@ let handlers : (string * (string list -> string -> verdict)) list = [
            | _ -> false) (L.combine g outs)) in
       { model = m; spec_ok = Some spec_ok; nontrivial = L.exists (fun n -> n.refs <> []) g }
     | _ -> failwith "args");
+  "subfsm", (fun args impl -> match args with
+    | [ops] ->
+      let open SubFsm in
+      let vs = function VOk -> "ok" | VAccessDenied -> "system.accessDenied" | VInternalError -> "system.internalError" | VDeleted -> "system.deleted" in
+      let op_of (o : string) : op =
+        let (name, arg) = (match S.index_opt o ':' with Some i -> (S.sub o 0 i, S.sub o (i + 1) (S.length o - i - 1)) | None -> (o, "")) in
+        let n () = nat_of_int (int_of_string arg) in
+        match name with
+        | "get" -> OpGet (n ()) | "call" -> OpCall (n ()) | "ready" -> OpReady (n ()) | "loaded" -> OpLoaded
+        | "resources" -> OpResources | "release" -> OpRelease | "custom" -> OpEvent (ECustom (n ())) | "delete" -> OpEvent EDelete
+        | "reaccess" -> OpReaccess | "add" -> OpAdd | "unsub" -> OpUnsub (n ())
+        | "answer" -> OpAnswer (match arg with "grant" -> AGrant | "grantnocall" -> AGrantNoCall | "deny" -> ADeny | "denied" -> ADenied | _ -> AError)
+        | _ -> failwith ("subfsm op " ^ o) in
+      let render (s : sub) (obs : obs list) : string =
+        let inline = L.filter_map (fun o -> match o with
+          | OCont (k, v) -> Some ("K" ^ string_of_int (int_of_nat k) ^ ":" ^ vs v)
+          | OReady k -> Some ("R" ^ string_of_int (int_of_nat k))
+          | OAccess -> Some "A"
+          | OEvent (ECustom n) -> Some ("F:custom" ^ string_of_int (int_of_nat n))
+          | OEvent EDelete -> Some "F:delete"
+          | OUnsubEvent v -> Some ("F:unsub:" ^ vs v)
+          | ORelease -> None
+          | OUnsubOk -> Some "UOK" | OUnsubFail -> Some "UFAIL" | OLimit -> Some "LIMIT") obs in
+        let all = inline @ (if L.mem ORelease obs then ["U"] else []) in
+        let b x = if x then 1 else 0 in
+        Printf.sprintf "%s st=%d q=%d f=%d d=%d eq=%d acc=%s acb=%d rcb=%d rs=%b reg=%b out=%d" (S.concat "," all)
+          (int_of_nat (sst_num s.st)) (b s.qL + 2 * b s.qR) (b s.fCalled + 2 * b s.fReacc) (int_of_nat s.direct) (L.length s.eq)
+          (match s.acc with None -> "-" | Some a -> vs (can_get a)) (L.length s.acbs) (L.length s.rcbs) s.hasrs s.reg (int_of_nat s.outst) in
+      let (_, outs) = L.fold_left (fun (s, acc) o -> let (s', ob) = step s (op_of o) in (s', render s' ob :: acc)) (init, []) (split_on ';' ops) in
+      let m = S.concat "|" (L.rev outs) in
+      (* spec on the implementation's own output (SubFsm theorems): no continuation runs twice; no event frame while a
+         re-access check is pending (q has the reaccess bit) *)
+      let per_op = S.split_on_char '|' impl in
+      let ks = L.concat_map (fun o -> match S.index_opt o ' ' with
+        | Some i -> L.filter (fun x -> S.length x > 1 && S.get x 0 = 'K') (S.split_on_char ',' (S.sub o 0 i)) | None -> []) per_op in
+      let ids = L.map (fun x -> match S.index_opt x ':' with Some i -> S.sub x 0 i | None -> x) ks in
+      let spec = L.length (L.sort_uniq compare ids) = L.length ids in
+      { model = m; spec_ok = Some spec; nontrivial = L.length per_op > 4 }
+    | _ -> failwith "args");
   "adapter_events", (fun args impl -> match args with
     | [published] ->
       (* every published event delivered, in order, nothing after Unsubscribe, over-long namespace refused *)
